@@ -44,6 +44,20 @@ func main() {
 	case "probe":
 		ch := mon.Lookup(os.Args[2])
 		os.Exit(core.ProbeMain(ch, os.Args[3], os.Args[4]))
+	case "calibrate":
+		switch os.Args[2] {
+		case "C03":
+			mon.CalibrateC03()
+		case "C04":
+			mon.CalibrateC04()
+		}
+	case "behaviour-hash":
+		mon.BehaviourHash()
+	case "snapshot-tables":
+		if err := mon.SnapshotTables(os.Args[2]); err != nil {
+			fmt.Println(err)
+			os.Exit(1)
+		}
 	case "replay":
 		os.Exit(core.ReplayMain(mon.Lookup, os.Args[2]))
 	default:
